@@ -2,8 +2,16 @@
    declarative specification (RouterSpec.v) on route-table cases from the
    harness: registration outcome per endpoint, then a grid of lookups.
    Serves C01, C02, C03 (routing part) and C04.  Verdict codes as in
-   Run_C05.v; known-finding classes: 104 (F4: exact template shadowed by a
-   wildcard sibling), 105 (F5: literal dot segment), 106 (K2: empty range). *)
+   Run_C05.v; known-finding class: 106 (K2: an endpoint whose range is the
+   empty 'until <minimum version>' cannot be reached).
+
+   Three judges over the same case type: [judge_c02] (registration outcome of
+   every declaration against [acceptable], reachability of every accepted
+   endpoint), [judge_c01] (every lookup that finds, or should find, an
+   endpoint) and [judge_c04] (every lookup that answers, or should answer,
+   404/405).  The specification side of the lookup judges is [expect] over the
+   list of declarations the IMPLEMENTATION accepted, so it does not depend on
+   the model's own registration verdicts. *)
 From DS Require Import Base Versions Router RouterSpec Pct Utf8 PathNorm.
 
 Definition V_AGREE : N := 0.
@@ -122,22 +130,51 @@ Fixpoint reg_all (st : rstate) (eps : list (str * ep)) (codes : list N) : rstate
 Definition grid {A B C} (a : list A) (b : list B) (c : list C) : list (A * B * C) :=
   flat_map (fun x => flat_map (fun y => map (fun z => (x, y, z)) c) b) a.
 
-Definition judge_lookup (acc : list (decl N)) (r : node N)
+(* the declarations the implementation accepted, in registration order *)
+Fixpoint accepted_impl (eps : list (str * ep)) (codes : list N) : option (list (decl N)) :=
+  match eps, codes with
+  | pe :: eps', c :: codes' =>
+      match accepted_impl eps' codes' with
+      | None => None
+      | Some acc =>
+          if c =? 0 then
+            match parse_template (fst pe) with
+            | Ok t => Some ((t, snd pe) :: acc)
+            | Err _ => None
+            end
+          else Some acc
+      end
+  | _, _ => Some []
+  end.
+
+Definition is_found (o : obs) : bool := match o with OFound _ _ _ _ => true | _ => false end.
+Definition x_found (x : expected N) : bool :=
+  match x with XFound _ _ | XAmbiguous => true | _ => false end.
+
+(* [which]: 1 = C01 (dispatch), 4 = C04 (404/405) *)
+Definition judge_lookup (which : N) (acc : list (decl N)) (r : option (node N))
            (q : str * str * option N) (o : obs) : N :=
   let '(p, m, v) := q in
   match input_segments p with
-  | Err _ => match o with O400 => V_AGREE | _ => V_VIOLATION end
+  | Err _ =>
+      (* path normalisation is C03's subject; here only: no endpoint may be found *)
+      if which =? 1 then (if is_found o then V_VIOLATION else V_AGREE) else V_AGREE
   | Ok segs =>
-      let model := lookup N ncmp r m segs v in
       let x := expect N ncmp acc m segs v in
-      if obs_is_expected o x then
-        (if obs_is_outcome o model then V_AGREE else V_DIVERGE)
+      let relevant := if which =? 1 then is_found o || x_found x
+                      else negb (is_found o || x_found x) in
+      if negb relevant then V_AGREE
+      else if obs_is_expected o x then
+        match r with
+        | Some r => if obs_is_outcome o (lookup N ncmp r m segs v) then V_AGREE else V_DIVERGE
+        | None => V_AGREE
+        end
       else V_VIOLATION
   end.
 
-Fixpoint judge_lookups acc r (qs : list (str * str * option N)) (os : list obs) : list N :=
+Fixpoint judge_lookups which acc r (qs : list (str * str * option N)) (os : list obs) : list N :=
   match qs, os with
-  | q :: qs', o :: os' => judge_lookup acc r q o :: judge_lookups acc r qs' os'
+  | q :: qs', o :: os' => judge_lookup which acc r q o :: judge_lookups which acc r qs' os'
   | [], [] => []
   | _, _ => [V_MALFORMED]
   end.
@@ -153,19 +190,50 @@ Definition judge_reach (acc : list (decl N)) (versioned : bool) (os : list obs) 
          else if versioned && empty_range (e_versions (snd d)) then V_K2R
          else V_VIOLATION) acc.
 
-Definition judge_detail (c : rcase) : list N :=
+(* no request may be served by two accepted declarations (C02: accepted
+   tables are unambiguous) *)
+Definition judge_unambiguous (acc : list (decl N)) (qs : list (str * str * option N)) : list N :=
+  map (fun q : str * str * option N =>
+         let '(p, m, v) := q in
+         match input_segments p with
+         | Err _ => V_AGREE
+         | Ok segs => match expect N ncmp acc m segs v with XAmbiguous => V_VIOLATION | _ => V_AGREE end
+         end) qs.
+
+Definition judge_detail_c02 (c : rcase) : list N :=
   match c with
   | CTable eps codes paths methods versions os =>
       let st := reg_all {| rs_acc := []; rs_trie := empty_node N; rs_codes := []; rs_stop := false |}
                         eps codes in
       let regv := rev (rs_codes st) in
       if rs_stop st || negb (length codes =? length eps)%nat then
-        (* registration ended early: no lookups are made *)
         regv ++ (match os with [] => [] | _ => [V_MALFORMED] end)
       else
         let versioned := existsb (fun v => match v with Some _ => true | None => false end) versions in
-        regv ++ judge_lookups (rs_acc st) (rs_trie st) (grid paths methods versions) os
-             ++ judge_reach (rs_acc st) versioned os
+        match os with
+        | [] => regv
+        | _ => regv ++ judge_reach (rs_acc st) versioned os
+                    ++ judge_unambiguous (rs_acc st) (grid paths methods versions)
+        end
   end.
 
-Definition judge (c : rcase) : N := worst (judge_detail c).
+Definition judge_detail_lookups (which : N) (c : rcase) : list N :=
+  match c with
+  | CTable eps codes paths methods versions os =>
+      match os with
+      | [] => []           (* registration ended early: nothing was looked up *)
+      | _ =>
+          match accepted_impl eps codes with
+          | None => [V_MALFORMED]
+          | Some acc =>
+              let r := match build N ncmp acc with Ok r => Some r | Err _ => None end in
+              judge_lookups which acc r (grid paths methods versions) os
+          end
+      end
+  end.
+
+Definition judge_c02 (c : rcase) : N := worst (judge_detail_c02 c).
+Definition judge_c01 (c : rcase) : N := worst (judge_detail_lookups 1 c).
+Definition judge_c04 (c : rcase) : N := worst (judge_detail_lookups 4 c).
+(* everything at once (development aid) *)
+Definition judge (c : rcase) : N := worse (judge_c02 c) (worse (judge_c01 c) (judge_c04 c)).
